@@ -13,7 +13,7 @@ import os
 import re
 import typing as T
 
-from . import common, c17_gen as G, c17_real as R, c17_tables, c17_flow as F, c17_ops as O
+from . import common, c17_gen as G, c17_real as R, c17_tables, c17_flow as F, c17_ops as O, c17_intro as I
 from .common import Ctx, enc, dec, enc_list
 
 ID = 'C17'
@@ -442,7 +442,10 @@ def oracle_step(bf: T.Any, af: T.Any, cmd: T.Dict[str, T.Any], status: str, meta
             viol.append(('extra_files_add:plain-string-plus-list',
                          f"{kind}: extra_files: '<file>' became '<file>' + [...] (string + list is not a valid meson expression)"))
         elif msg:
-            viol.append((whole_file_cause() or f'value:{kind}', f'{kind}: {msg}'))
+            # a value the command itself introduces goes through the same AstPrinter.escape / post_process as a re-printed one
+            ih = sorted(I.introduced_hazards(cmd))
+            for k_ in ([whole_file_cause()] if whole_file_cause() else (ih or [f'value:{kind}'])):
+                viol.append((k_, f'{kind}: {msg}'))
 
     # ---- (4) every other argument of a re-printed statement is structurally the same
     for fname in sorted(bv.per_file):
@@ -466,6 +469,9 @@ def oracle_step(bf: T.Any, af: T.Any, cmd: T.Dict[str, T.Any], status: str, meta
                 hz = R.hazards_in(bfiles[fname], i, diffs)
                 cause = whole_file_cause()
                 what = f'{kind}: {fname} statement {i} differs at {diffs[:3]}'
+                ih = I.introduced_hazards(cmd)
+                if ih and not cause and all(d_ and d_[-1] == 'strings' for d_ in diffs):
+                    hz = ih       # the introduced file name itself is what differs
                 if subdir_target and cause:
                     viol.append((cause, what))
                 elif hz:
@@ -571,6 +577,7 @@ def run_case(case: T.Dict[str, T.Any]) -> T.Dict[str, T.Any]:
                     step['tags'] += ft
                 _collect(out, step, case, ci, group[0], bf, af, status)
                 _lean_apply(out, recs, bf, af_raw, root)
+                _lean_kwcmd(out, group[0], recs, bf, af_raw, root, status, _case_of(case, ci))
                 if case.get('flow') and status == 'ok' and not step['viol'] and group[0].get('type') == 'target' and \
                         group[0].get('operation') != 'target_rm':
                     # `info` is judged only where the real list does not depend on the configuration
@@ -627,6 +634,9 @@ def run_case(case: T.Dict[str, T.Any]) -> T.Dict[str, T.Any]:
                     except Exception as e:
                         out['viol'].append(('info:unreadable', f'info after {group[0].get("operation")}: {st2} {type(e).__name__}',
                                             _case_of(case, ci)))
+                if case.get('intro'):
+                    out['tags'].append('introduced:' + case['intro'].split(':')[0] + ':' + case.get('intro_class', '?'))
+                    _intro_kwargs_info(out, case, ci, group[0], step, status, root)
                 ci += 1
                 if step['viol']:
                     out['tags'].append('sequence-stopped-after-violation')
@@ -653,6 +663,23 @@ def run_case(case: T.Dict[str, T.Any]) -> T.Dict[str, T.Any]:
         restore()
         common.rmtree(root)
     return out
+
+
+def _intro_kwargs_info(out: T.Dict[str, T.Any], case: T.Dict[str, T.Any], ci: int, cmd: T.Dict[str, T.Any], step: T.Dict[str, T.Any],
+                       status: str, root: str) -> None:
+    """`kwargs info` must report the value a `kwargs set` just introduced (the property: "... and `info` reports it")"""
+    if cmd.get('type') != 'kwargs' or cmd.get('operation') != 'set' or status != 'ok' or step['viol']:
+        return
+    st2, so2, _se2 = R.run_rewriter(root, [{'type': 'kwargs', 'function': cmd['function'], 'id': cmd['id'], 'operation': 'info', 'kwargs': {}}])
+    try:
+        ent = json.loads(so2)['kwargs'][f"{cmd['function']}#{cmd['id']}"]
+        out['tags'].append('kwargs-info-checked')
+        for k, v in sorted(cmd['kwargs'].items()):
+            if ent.get(k) != v:
+                out['viol'].append(('info:does-not-report-requested-value',
+                                    f'kwargs info reports {k} = {ent.get(k)!r}, requested {v!r}', _case_of(case, ci)))
+    except Exception as e:
+        out['viol'].append(('info:unreadable', f'kwargs info after set: {st2} {type(e).__name__}', _case_of(case, ci)))
 
 
 def _script_mode(case: T.Dict[str, T.Any], cmds: T.List[T.Dict[str, T.Any]], statuses: T.List[str],
@@ -695,7 +722,7 @@ def _script_mode(case: T.Dict[str, T.Any], cmds: T.List[T.Dict[str, T.Any]], sta
 def _case_of(case: T.Dict[str, T.Any], upto: int) -> T.Dict[str, T.Any]:
     return {'files': {f: t for f, t in case['files'].items() if os.path.basename(f) == 'meson.build'},
             'cmds': case['cmds'][:upto + 1], 'cwd': case.get('cwd', 'root'), 'flow': bool(case.get('flow')),
-            'optable': case.get('optable'),
+            'optable': case.get('optable'), 'intro': case.get('intro'), 'intro_class': case.get('intro_class'),
             'meta': {k: case['meta'][k] for k in ('pool', 'extra_pool', 'shared', 'allfiles') if k in case['meta']}, 'mode': 'single'}
 
 
@@ -759,6 +786,78 @@ def _lean_apply(out: T.Dict[str, T.Any], recs: T.List[T.Dict[str, T.Any]], bf: T
                       if works[i]['meta'].startswith('0,')]
                 if any(a[2] == b[2] and a[-1] == b[-1] for a, b in zip(ms, ms[1:])):
                     out['tags'].append('multi-node-apply:same-line')
+
+
+def _lean_kwcmd(out: T.Dict[str, T.Any], cmd: T.Dict[str, T.Any], recs: T.List[T.Dict[str, T.Any]], bf: T.Dict[str, str],
+                af: T.Dict[str, str], root: str, status: str, case: T.Dict[str, T.Any]) -> None:
+    """a whole `kwargs set / delete` command through the model (Rewrite/Command.lean applyKw): the node AS PARSED from the
+    BEFORE text + the command -> the model edits the keyword dictionary, prints, splices; must equal the file the real
+    command left (also when the real command changed nothing)"""
+    if cmd.get('type') != 'kwargs' or cmd.get('operation') not in ('set', 'delete') or status != 'ok' or len(recs) > 1:
+        return
+    if any(r_['exc'] for r_ in recs):
+        return
+    try:
+        from mesonbuild import rewriter as RW
+        from mesonbuild.ast import AstIndentationGenerator
+        kdef = RW.rewriter_func_kwargs.get(cmd.get('function'), {})
+        kvs: T.List[str] = []
+        for k, v in cmd.get('kwargs', {}).items():
+            cls = kdef[k].__name__ if k in kdef else None
+            if cmd['operation'] == 'delete':
+                kind, val = 'b', '0'
+                if cls is None:
+                    raise KeyError(k)
+            elif cls == 'MTypeStr':
+                kind, val = 's', enc(str('' if v is None else v))
+            elif cls == 'MTypeBool':
+                kind, val = 'b', '1' if bool(v) else '0'
+            elif cls in ('MTypeStrList', 'MTypeIDList'):
+                if isinstance(v, list):
+                    if any(str(x) == '' for x in v):
+                        raise KeyError('empty element')
+                    kind, val = ('S' if cls == 'MTypeStrList' else 'I'), enc_list(str(x) for x in v)
+                else:
+                    kind, val = ('s' if cls == 'MTypeStrList' else 'i'), enc(str(v))
+            else:
+                raise KeyError(k)
+            kvs += [enc(k), kind, val]
+        # the addressed call in the BEFORE text, with the levels AstIndentationGenerator gives it
+        hit = None
+        for rel in ['meson.build'] + sorted(f for f in bf if f != 'meson.build'):
+            block = R.parse(bf[rel])
+            block.accept(AstIndentationGenerator())
+            stmts = R.flat_statements(block)
+            if cmd['function'] == 'project':
+                loc = R.find_func(stmts, 'project')
+            elif cmd['function'] == 'target':
+                loc = R.find_target(stmts, cmd['id'])
+            else:
+                loc = R.find_func(stmts, 'dependency', cmd['id'])
+            if loc is not None:
+                hit = (rel, loc[1])
+                break
+        if hit is None:
+            return
+        rel, node = hit
+        works = [w for r_ in recs for w in r_['works']]
+        span = R._span(node)
+        if works:
+            m_ = [int(x) for x in works[0]['meta'].split(',')]
+            if len(works) != 1 or m_[0] != 0 or m_[1] != 0 or tuple(m_[2:6]) != span or \
+                    os.path.relpath(works[0]['file'], os.path.realpath(root)) != rel:
+                out['tags'].append('kwcmd-not-modelled')
+                return
+        tree = R.ser(node)
+    except (KeyError, R.Unsupported):
+        out['tags'].append('kwcmd-not-modelled')
+        return
+    except Exception as e:
+        out['tags'].append('kwcmd-not-modelled:' + type(e).__name__)
+        return
+    fields = [enc(bf[rel]), ','.join(str(x) for x in span), tree, '1' if cmd['operation'] == 'delete' else '0'] + kvs
+    out['lean'].append(('kwcmd', 'kwcmd ' + '|'.join(fields), enc(af.get(rel, '')), case))
+    out['tags'].append('kwcmd:' + cmd['operation'] + (':unchanged' if not works else ''))
 
 
 # ================================================================================================ case generation
@@ -940,6 +1039,21 @@ def hostile_family() -> T.List[T.Dict[str, T.Any]]:
     return out
 
 
+def introduced_family(ctx: Ctx) -> T.List[T.Dict[str, T.Any]]:
+    """command kinds that introduce a string × hostile value alphabet (harness/c17_intro.py). Thorough: the full product.
+    Quick: every kind × every CLASS of the alphabet (the representative of a class rotates with the seed) + a sample of the rest."""
+    alpha = I.alphabet()
+    if ctx.deep:
+        return I.cases(alpha)
+    by: T.Dict[str, T.List[T.Tuple[str, str]]] = {}
+    for k, v in alpha:
+        by.setdefault(k, []).append((k, v))
+    reps = [ctx.rng.choice(l) for _k, l in sorted(by.items())]
+    rest = [x for x in alpha if x not in reps]
+    more = I.cases(rest)
+    return I.cases(reps) + ctx.rng.sample(more, min(len(more), 160))
+
+
 def corpus_cases() -> T.List[T.Dict[str, T.Any]]:
     out = []
     pool = ['s%d.c' % i for i in range(8)]
@@ -976,7 +1090,7 @@ def _inflate(c: T.Dict[str, T.Any]) -> T.Dict[str, T.Any]:
     files = {f: '' for f in pool + epool + ['new0.c', 'new1.c', 'new2.c', 'newe0.txt', 'newe1.txt'] + list(allfiles)}
     files.update(c['files'])
     return {'files': files, 'cmds': c['cmds'], 'mode': c.get('mode', 'single'), 'prints': False, 'cwd': c.get('cwd', 'root'),
-            'flow': bool(c.get('flow')), 'optable': c.get('optable'),
+            'flow': bool(c.get('flow')), 'optable': c.get('optable'), 'intro': c.get('intro'), 'intro_class': c.get('intro_class'),
             'meta': {'pool': pool, 'extra_pool': epool, 'shared': c.get('meta', {}).get('shared', []), 'targets': {}, 'deps': {},
                      'project': {}, 'hazard': 'flow' if c.get('flow') else 'replay', 'allfiles': list(allfiles)}}
 
@@ -1192,7 +1306,7 @@ def _absorb(ctx: Ctx, cases: T.List[T.Dict[str, T.Any]], results: T.List[T.Dict[
                 a = ','.join(x for x in a.strip().split(',') if x.isdigit() and int(x) in c['printed'])
             if a.strip() != expected.strip():
                 d = {'kind': 'lean-' + kind, 'model': a[:300], 'impl': expected[:300]}
-                if kind in ('same', 'listop'):
+                if kind in ('same', 'listop', 'kwcmd'):
                     d['case'] = c
                 else:
                     d['before'] = c['before'][:600]
@@ -1217,7 +1331,7 @@ def run(ctx: Ctx) -> None:
     ]
     R.quiet()
     rng = ctx.rng
-    cases = corpus_cases() + hostile_family() + optable_cases()
+    cases = corpus_cases() + hostile_family() + optable_cases() + introduced_family(ctx)
     nproj = ctx.scale(420, 4000)
     hz_cycle = [None] * 7 + G.HAZARDS
     for i in range(nproj):
@@ -1265,7 +1379,7 @@ def search(ctx: Ctx, disagreements: T.List[dict]) -> None:
     epool = ['e%d.txt' % i for i in range(4)]
     for d in disagreements[:20]:
         src = d.get('input') if d.get('kind') in ('print', 'newdata') else None
-        if d.get('kind') in ('lean-same', 'lean-listop', 'lean-pmatch'):
+        if d.get('kind') in ('lean-same', 'lean-listop', 'lean-pmatch', 'lean-kwcmd'):
             cases.append(_inflate(d['case']))
         if not src or not isinstance(src, str) or ';' in src[:3]:
             continue
